@@ -7,6 +7,7 @@ from claripy.errors import ClaripyZeroDivisionError, ClaripyOperationError
 
 from lib import exprs as E
 
+AC_OPS = {"add", "mul", "and", "or", "xor"}         # rewrites of these nodes not explained by a schema go to the AC certificate check
 COMPLETE_OPS = {"shl", "Not", "not", "ite"}      # simplifier fully covered by the rule table (first-match enforced)
 
 
@@ -145,6 +146,7 @@ class StepChecker:
             lines.append(("fold " if const else "rules ") + E.sexpr(n))
         outs = ctx.driver(lines)
         bad = []
+        pending_ac = []
         for (n, r, memo), line, out in zip(self.steps, lines, outs):
             try:
                 rt = E.from_ast(r)
@@ -180,12 +182,27 @@ class StepChecker:
                     break
             if hit:
                 self.stats["rule_explained"][hit] = self.stats["rule_explained"].get(hit, 0) + 1
+            elif op in AC_OPS:
+                pending_ac.append((n, rt, cands))
             elif op in COMPLETE_OPS:
                 bad.append(("corr:unexplained-rewrite", "%s built %s; model candidates: %s" % (
                     E.sexpr(n), E.sexpr(rt), [c[0] for c in cands] or "none"), n))
             else:
                 key = op + ("+cand" if cands else "")
                 self.stats["unmodelled_rewrite"][key] = self.stats["unmodelled_rewrite"].get(key, 0) + 1
+        # second phase: rewrites of associative-commutative nodes are checked by the proven certificate check `acEquiv`
+        if pending_ac:
+            outs2 = ctx.driver(["ac %s | %s" % (E.sexpr(n), E.sexpr(rt)) for n, rt, _ in pending_ac])
+            for (n, rt, cands), o in zip(pending_ac, outs2):
+                op = n[0]
+                if o == "1":
+                    key = "AC." + op
+                    self.stats["rule_explained"][key] = self.stats["rule_explained"].get(key, 0) + 1
+                else:
+                    key = op + ("+cand" if cands else "")
+                    self.stats["unmodelled_rewrite"][key] = self.stats["unmodelled_rewrite"].get(key, 0) + 1
+                    if len(self.stats.setdefault("unmodelled_examples", [])) < 12:
+                        self.stats["unmodelled_examples"].append("%s => %s" % (E.sexpr(n)[:160], E.sexpr(rt)[:160]))
         self.steps = []
         return bad
 
